@@ -44,7 +44,7 @@ Definition ps_count (c : Z) (l : list Z) : Z :=
 (* context of note j (0-based, canonical order): the notes max(0, j-K_pre) .. min(n, j+K_post)-1;
    compute_chroma_vector_array maintains the chroma counts of exactly this slice *)
 Definition ps_window (kpre kpost : nat) (cs : list Z) (j : nat) : list Z :=
-  firstn (Nat.min (length cs) (j + kpost) - (j - kpre)) (skipn (j - kpre) cs).
+  firstn (Nat.min (List.length cs) (j + kpost) - (j - kpre)) (skipn (j - kpre) cs).
 
 (* morph of a note of chroma c if the tonic had chroma ct, the first note having chroma c0 *)
 Definition mftc (c0 c ct : Z) : Z :=
@@ -132,11 +132,11 @@ Definition named_eqb (a b : named) : bool :=
   row_eqb (fst a) (fst b) &&
   String.eqb (fst (fst (snd a))) (fst (fst (snd b))) &&
   (snd (fst (snd a)) =? snd (fst (snd b))) && (snd (snd a) =? snd (snd b)).
-Definition named_count (x : named) (l : list named) : nat := length (filter (named_eqb x) l).
+Definition named_count (x : named) (l : list named) : nat := List.length (filter (named_eqb x) l).
 
 Definition spell_check (c : nat * nat * list row * list (string * Z * Z)) : bool :=
   let '(kpre, kpost, rows, out) := c in
   let got := combine rows out in
   let want := map named_of (spell_tab kpre kpost rows) in
-  Nat.eqb (length out) (length rows) && Nat.eqb (length want) (length rows) &&
+  Nat.eqb (List.length out) (List.length rows) && Nat.eqb (List.length want) (List.length rows) &&
   forallb (fun x => Nat.eqb (named_count x got) (named_count x want)) got.
